@@ -1011,9 +1011,12 @@ func (s *Service) ProcessRequest(ctx *core.Context, m map[string]interface{}, ou
 			for _, found := range sr.Found {
 				_, err := s.System.RemFact(ctx, location, found.Id)
 				if err != nil {
+					// What we would report as taken is still
+					// there (say an inherited fact, a storage
+					// failure, a write-protected location).
 					core.Log(core.ERROR, ctx, "service.ProcessRequest", "app_tag", "/api/loc/facts/search", "error", err, "RemFact", found.Id)
+					return nil, err
 				}
-				// ToDo: Something with error.
 			}
 		}
 
